@@ -905,6 +905,9 @@ fn exec_op(
     {
         let mut o = oracle.lock().unwrap();
         *o.stats.ops.entry(kind.to_string()).or_insert(0) += 1;
+        if cb_panic_at.is_some() {
+            o.stats.probe("callback_panic_armed");
+        }
     }
     match &spec.op {
         Op::Nop => false,
@@ -1242,10 +1245,18 @@ fn exec_op(
                 _ => {}
             }
             let key = format!("R|{}|{}|{}", rk, m.key(), v.digest);
-            let spec = Some(OneSpec { cfg: v.cfg.clone(), blank: v.blank, tweaks: v.tweaks.to_vec(), render: Some((rk.into(), m.canonical_setters())) });
+            // a panicking callback is a harness-side fault, not part of the model: no pristine spec then
+            let spec = if m.has_panicky_shape() {
+                None
+            } else {
+                Some(OneSpec { cfg: v.cfg.clone(), blank: v.blank, tweaks: v.tweaks.to_vec(), render: Some((rk.into(), m.canonical_setters())) })
+            };
+            CB_CALLS.with(|c| c.set(0));
+            CB_PANIC_AT.with(|c| c.set(cb_panic_at));
             sched::op_begin(sim, id, crash);
             let outcome = render_img_outcome(b, v.qr, *pixmap);
             sched::op_end(sim, id);
+            CB_PANIC_AT.with(|c| c.set(None));
             finish_render(oracle, &key, outcome, &v, id, op_index, kind, spec)
         }
         Op::Term { qr, print } => {
